@@ -57,6 +57,10 @@ def run_case(case):
     shuffle = case["shuffle"]
     combos, cases, fn_args = build_inputs(case)
     consts = {"q": 1.5}
+    if case["farmer"]:
+        # a sow-time constant that repeats a stored one takes precedence,
+        # exactly as in Runner.run_combos(constants=...)
+        consts["p"] = 7
     with core.scratch("xv-c07-") as root:
         fn = crops.record("int", None)
         ckw = {}
